@@ -32,10 +32,11 @@ FIELD_PROPS = {
     "bi.levels": ["C01", "C08", "C11", "C12"], "pi.levels": ["C01", "C08", "C11", "C12"],
     "bi.paras": ["C02", "C16"], "pi.level": ["C02", "C16"], "pi.pure": ["C17"],
     "bi.has_rtl": ["C17"], "bi.dirs": ["C17"], "bi.level_at": ["C17"], "pi.has_rtl": ["C17"], "pi.dir": ["C17"],
-    "bi.rl": ["C03", "C08"], "bi.rlc": ["C03", "C08"], "pi.rl": ["C03", "C08"], "pi.rlc": ["C03", "C08"],
-    "bi.vr": ["C05"], "bi.dvr": ["C05"], "pi.vr": ["C05"], "pi.dvr": ["C05"],
-    "bi.ro": ["C06"], "pi.ro": ["C06", "C17"], "bi.rv": ["C04"], "pi.rv": ["C04"],
-    "bi.lines": ["C03", "C05", "C06"], "pi.lines": ["C03", "C05", "C06"],
+    # (C12 inherits a disagreement only from cases that use a caller-supplied data source: see relevant())
+    "bi.rl": ["C03", "C08", "C12"], "bi.rlc": ["C03", "C08", "C12"], "pi.rl": ["C03", "C08", "C12"], "pi.rlc": ["C03", "C08", "C12"],
+    "bi.vr": ["C05", "C12"], "bi.dvr": ["C05"], "pi.vr": ["C05", "C12"], "pi.dvr": ["C05"],
+    "bi.ro": ["C06", "C12"], "pi.ro": ["C06", "C17", "C12"], "bi.rv": ["C04"], "pi.rv": ["C04"],
+    "bi.lines": ["C03", "C05", "C06", "C12"], "pi.lines": ["C03", "C05", "C06", "C12"],
     "bd": ["C16"], "bdf": ["C16"], "sub": ["C01"],
     "rv": ["C04"], "same": ["C04"],
     "iter": ["C18"], "len": ["C18"], "ca": ["C18"], "ci": ["C18"], "il": ["C18"], "ch": ["C18"], "rev": ["C18"],
